@@ -10,7 +10,8 @@ Definition fmul (a b : Q) : Q := f32_round (a * b).
 
 (* Rust str::parse::<f32> restricted to the buffers parse_number can build:
    [-] digits [. digits] [(e|E) [-] digits], at least one mantissa digit, at least one exponent
-   digit; any other character (e.g. a non-ASCII numeric) is an error.  Correctly rounded. *)
+   digit; any other character (e.g. a non-ASCII numeric) is an error.  Correctly rounded; a text whose
+   value overflows f32 is an error (parse_number rejects the infinity str::parse returns). *)
 Fixpoint digits (l : list Z) (acc : Z) (n : Z) : Z * Z * list Z :=   (* value, count, rest *)
   match l with
   | c :: r => if (48 <=? c) && (c <=? 57) then digits r (acc * 10 + (c - 48)) (n + 1) else (acc, n, l)
@@ -26,9 +27,12 @@ Definition parse_f32 (buf : list Z) : option Q :=
   if (ni + nf =? 0) then None
   else
     let mant := (inject_Z ip + inject_Z fp * pow10 (- nf))%Q in
+    (* the parser rejects a text whose value rounds to an infinity (|v| >= 2^128 - 2^103 rounds to inf) *)
     let fin (e : Z) (rest : list Z) :=
       match rest with
-      | [] => let v := (mant * pow10 e)%Q in Some (f32_round (if neg then Qopp v else v))
+      | [] => let v := (mant * pow10 e)%Q in
+              if Qle_bool (inject_Z (2 ^ 128 - 2 ^ 103)) v then None
+              else Some (f32_round (if neg then Qopp v else v))
       | _ => None
       end in
     match l with
